@@ -71,15 +71,15 @@ Print Assumptions C18_wire.
    args/kwargs (then the five detail attributes are assigned) — or, when the URI is unregistered, the constructor
    raises or yields a falsy object, the generic ApplicationError carrying URI, args, kwargs.  For EVERY constructor
    oracle.  The only way out is the assignment of a detail attribute that the instance exposes read-only. *)
-Theorem C18_class_or_fallback : forall (V MV : Type) construct r (m : errmsg V MV),
+Theorem C18_class_or_fallback : forall (V MV : Type) construct caller_hook r (m : errmsg V MV),
   (exists c i, aget String.eqb (m_error m) (uri_to_ecls r) = Some c /\ ctor_call V MV construct c m = CtorOk i
                /\ c_truthy i = true /\
-               fst (exception_from_message construct r m) =
+               fst (exception_from_message construct caller_hook r m) =
                  if meta_writable V MV i then Ok (with_meta V MV m i) else Raise AttributeError)
   \/
   ( (forall c i, aget String.eqb (m_error m) (uri_to_ecls r) = Some c -> ctor_call V MV construct c m = CtorOk i
                  -> c_truthy i = false)
-    /\ fst (exception_from_message construct r m) = Ok (generic_error V MV m) ).
+    /\ fst (exception_from_message construct caller_hook r m) = Ok (generic_error V MV m) ).
 Proof. exact class_or_fallback. Qed.
 Print Assumptions C18_class_or_fallback.
 
@@ -106,10 +106,10 @@ Print Assumptions C18_generic_error_carries_refuted.
    Since ApplicationError.__init__ takes `error` positionally only, the fallback constructor cannot fail, and for
    EVERY constructor oracle (also one that raises on every call) an exception object carrying the payload is
    returned — provided no instance exposes one of the five detail attributes as a read-only property *)
-Theorem C18_never_lost_partial : forall (V MV : Type) construct r (m : errmsg V MV),
+Theorem C18_never_lost_partial : forall (V MV : Type) construct caller_hook r (m : errmsg V MV),
   (forall c i, aget String.eqb (m_error m) (uri_to_ecls r) = Some c -> ctor_call V MV construct c m = CtorOk i ->
                meta_writable V MV i = true) ->
-  exists e, fst (exception_from_message construct r m) = Ok e /\
+  exists e, fst (exception_from_message construct caller_hook r m) = Ok e /\
     (e = generic_error V MV m \/ exists c i, aget String.eqb (m_error m) (uri_to_ecls r) = Some c /\
                                           ctor_call V MV construct c m = CtorOk i /\ c_truthy i = true /\
                                           e = with_meta V MV m i).
@@ -120,13 +120,14 @@ Print Assumptions C18_never_lost_partial.
    `if hasattr(exc, "callee"): exc.callee = msg.callee` (etc.) are unguarded; a registered class whose instances have
    `callee` as a property without setter makes AttributeError leave _exception_from_message and onMessage *)
 Definition C18_never_lost_statement : Prop :=
-  forall (V MV : Type) construct r (m : errmsg V MV), exists e, fst (exception_from_message construct r m) = Ok e.
+  forall (V MV : Type) construct caller_hook r (m : errmsg V MV), exists e, fst (exception_from_message construct caller_hook r m) = Ok e.
 
 Theorem C18_never_lost_refuted : ~ C18_never_lost_statement.
 Proof.
   intro H.
   destruct (H unit unit
               (fun c _ a _ => CtorOk (mkCexn c None a None true [("callee", FromKw None)] ["callee"]))
+              HookReturns
               (fst (define (fun _ => true) init_registry (DefExplicit 10%N "com.myapp.error")))
               (mkErr 48%N 1%N "com.myapp.error" (Some [tt]) None no_meta)) as [e He].
   vm_compute in He. discriminate.
@@ -135,12 +136,12 @@ Print Assumptions C18_never_lost_refuted.
 
 (* onMessage: an ERROR for a pending, not yet completed CALL removes the request and rejects it with the
    exception — or, in the lost case, removes the request and lets the exception escape (the call never completes) *)
-Theorem C18_call_completes : forall (V MV : Type) construct r p tbl q (m : errmsg V MV),
+Theorem C18_call_completes : forall (V MV : Type) construct caller_hook r p tbl q (m : errmsg V MV),
   m_rtype m = 48%N ->
   aget N.eqb 48%N p = Some tbl -> find_req (m_request m) tbl = Some q -> rq_done q = false ->
-  let '(p', d) := on_error construct r p m in
+  let '(p', d) := on_error construct caller_hook r p m in
   (exists tbl', aget N.eqb 48%N p' = Some tbl' /\ find_req (m_request m) tbl' = None) /\
-  d = match fst (exception_from_message construct r m) with
+  d = match fst (exception_from_message construct caller_hook r m) with
       | Ok e => Rejected (m_request m) e
       | Raise x => Escaped (m_request m) x
       end.
@@ -148,15 +149,17 @@ Proof. exact on_error_call. Qed.
 Print Assumptions C18_call_completes.
 
 (* ---------------------------------------------------------------- end to end *)
-(* callee raises e -> ERROR(INVOCATION) -> marshal/parse -> router -> ERROR(CALL) -> marshal/parse -> caller:
+(* [callee_hook] / [caller_hook] = the applications' onUserError overrides (called by the invocation errback and
+   when a registered class's constructor raises): arbitrary, also raising — both call sites are try/except-guarded.
+   callee raises e -> ERROR(INVOCATION) -> marshal/parse -> router -> ERROR(CALL) -> marshal/parse -> caller:
    the caller's session processes exactly (URI chosen by the callee's registry, e's args, e's kwargs [+ traceback]) *)
-Theorem C18_end_to_end : forall (V MV : Type) construct note callee_reg caller_reg tba tbv (e : exn V)
+Theorem C18_end_to_end : forall (V MV : Type) construct caller_hook note callee_hook callee_reg caller_reg tba tbv (e : exn V)
                                 inv_req call_req meta p tbl q,
   aget N.eqb 48%N p = Some tbl -> find_req call_req tbl = Some q -> rq_done q = false ->
   let m : errmsg V MV := caller_view V MV callee_reg tba tbv e call_req meta in
-  let '(p', d) := end_to_end note construct callee_reg caller_reg tba tbv e inv_req call_req meta p in
+  let '(p', d) := end_to_end note callee_hook construct caller_hook callee_reg caller_reg tba tbv e inv_req call_req meta p in
   (exists tbl', aget N.eqb 48%N p' = Some tbl' /\ find_req call_req tbl' = None) /\
-  d = match fst (exception_from_message construct caller_reg m) with
+  d = match fst (exception_from_message construct caller_hook caller_reg m) with
       | Ok ce => Rejected call_req ce
       | Raise x => Escaped call_req x
       end.
@@ -165,23 +168,23 @@ Print Assumptions C18_end_to_end.
 
 (* corollary: no traceback forwarding, no reserved keyword, URI unknown to the caller: the call fails with
    ApplicationError(uri, *args, **kwargs) — identical URI, args, kwargs (a keyword named error or self included) *)
-Theorem C18_end_to_end_generic : forall (V MV : Type) construct note callee_reg caller_reg (e : exn V)
+Theorem C18_end_to_end_generic : forall (V MV : Type) construct caller_hook note callee_hook callee_reg caller_reg (e : exn V)
                                         inv_req call_req meta p tbl q,
   aget N.eqb 48%N p = Some tbl -> find_req call_req tbl = Some q -> rq_done q = false ->
   aget String.eqb (err_uri callee_reg e) (uri_to_ecls caller_reg) = None ->
   no_reserved V (or_nil (x_kwargs e)) ->
-  exists ce, snd (end_to_end (MV:=MV) note construct callee_reg caller_reg false None e inv_req call_req meta p)
+  exists ce, snd (end_to_end (MV:=MV) note callee_hook construct caller_hook callee_reg caller_reg false None e inv_req call_req meta p)
              = Rejected call_req ce /\
     c_cls ce = CLS_ApplicationError /\ c_error ce = Some (err_uri callee_reg e) /\
     c_args ce = x_args e /\ c_kwargs ce = Some (or_nil (x_kwargs e)).
 Proof.
-  intros V MV construct note callee_reg caller_reg e inv_req call_req meta p tbl q Hp Hf Hd Hu Hr.
-  pose proof (end_to_end_spec V MV construct note callee_reg caller_reg false None e inv_req call_req meta p tbl q Hp Hf Hd) as H.
+  intros V MV construct caller_hook note callee_hook callee_reg caller_reg e inv_req call_req meta p tbl q Hp Hf Hd Hu Hr.
+  pose proof (end_to_end_spec V MV construct caller_hook note callee_hook callee_reg caller_reg false None e inv_req call_req meta p tbl q Hp Hf Hd) as H.
   cbv zeta in H.
-  destruct (end_to_end note construct callee_reg caller_reg false None e inv_req call_req meta p) as [p' d].
+  destruct (end_to_end note callee_hook construct caller_hook callee_reg caller_reg false None e inv_req call_req meta p) as [p' d].
   destruct H as [_ H]. simpl snd.
   set (m := caller_view V MV callee_reg false None e call_req meta) in *.
-  destruct (class_or_fallback V MV construct caller_reg m) as [(c & i & Hreg & _) | [_ Hgen]].
+  destruct (class_or_fallback V MV construct caller_hook caller_reg m) as [(c & i & Hreg & _) | [_ Hgen]].
   - unfold m, caller_view in Hreg. simpl in Hreg. rewrite Hu in Hreg. discriminate.
   - rewrite Hgen in H. exists (generic_error V MV m). split; [exact H|].
     destruct (generic_error_carries V MV m) as (H1 & H2 & _ & _ & H5).
@@ -216,15 +219,15 @@ Example C18_witness_end_to_end :
   let callee := reg_after ex_pattern_ok ex_ops in
   let caller := reg_after ex_pattern_ok [DefExplicit 20 "com.myapp.error1"] in
   let p : pending := [(48, [mkRequest 7 false; mkRequest 8 false])] in
-  snd (end_to_end (fun _ => 0) ex_construct callee caller false None
+  snd (end_to_end (fun _ => 0) HookRaises ex_construct HookRaises callee caller false None
          (mkExn 10 false "" [1; 2] None) 100 7 no_meta p)
     = Rejected 7 (mkCexn 20 None [1; 2] None true [] []) /\
-  snd (end_to_end (fun _ => 0) ex_construct callee caller true (Some 99)
+  snd (end_to_end (fun _ => 0) HookRaises ex_construct HookRaises callee caller true (Some 99)
          (mkExn 10 false "" [1; 2] (Some [("a", 5)])) 100 8 no_meta p)
     = Rejected 8 (mkCexn CLS_ApplicationError (Some "com.myapp.error1") [1; 2]
                          (Some [("a", 5); ("traceback", 99)]) true
                          (map (fun n => (n, FromMsg None)) RESERVED) []) /\
-  end_to_end (fun _ => 0) ex_construct callee caller false None
+  end_to_end (fun _ => 0) HookRaises ex_construct HookRaises callee caller false None
          (mkExn 10 false "" [] (Some [("error", 5)])) 100 8 no_meta p
     = ([(48, [mkRequest 7 false])],
        Rejected 8 (mkCexn CLS_ApplicationError (Some "com.myapp.error1") [] (Some [("error", 5)]) true
